@@ -83,11 +83,13 @@ UrlToStr(u) == (IF u.scheme # <<>> THEN u.scheme \o <<Colon, Slash, Slash>> ELSE
 RECURSIVE NumFrom(_, _, _)
 NumFrom(s, i, acc) == IF i > Len(s) THEN acc ELSE NumFrom(s, i + 1, IF acc > 99999 THEN acc ELSE acc * 10 + (s[i] - 48))
 \* the port text: the reference accepts 1..5 digits with a value <= 65535; the as-found switch adds what std::stoi + uint16_t accepted
-Port(s) ==
-  IF s # <<>> /\ (\A i \in 1..Len(s) : IsDigit(s[i])) /\ Len(s) <= 5 /\ NumFrom(s, 1, 0) <= 65535 THEN Ok(NumFrom(s, 1, 0))
-  ELSE IF "port_wrap" \in Bugs /\ s # <<>> /\ (\A i \in 1..Len(s) : IsDigit(s[i])) /\ Len(s) <= 6 THEN Ok(NumFrom(s, 1, 0) % 65536)
+AllDigits(s) == \A i \in 1..Len(s) : IsDigit(s[i])
+Port(s, lax) ==      \* lax: a text with a sign, blanks or trailing characters (std::stoi tolerates them) passes as well, a plain number out of range never
+  IF s # <<>> /\ AllDigits(s) /\ NumFrom(s, 1, 0) <= 65535 THEN Ok(NumFrom(s, 1, 0))
+  ELSE IF "port_wrap" \in Bugs /\ s # <<>> /\ AllDigits(s) /\ Len(s) <= 6 THEN Ok(NumFrom(s, 1, 0) % 65536)
+  ELSE IF lax /\ s # <<>> /\ ~AllDigits(s) THEN Ok(0)
   ELSE Fail
-ParseHostG(s, lax) ==      \* lax: any port text passes (used to tell "only the port text is odd" from "malformed")
+ParseHostG(s, lax) ==      \* lax: odd port texts pass (used to tell "only the port text is odd" from "malformed")
   LET at == Find(s, At, 1)
       c1 == Find(s, Colon, 1)
       user == IF at = 0 THEN Ok(<<>>) ELSE IF c1 = 0 \/ c1 > at THEN Dec(SubSeq(s, 1, at - 1)) ELSE Dec(SubSeq(s, 1, c1 - 1))
@@ -95,7 +97,7 @@ ParseHostG(s, lax) ==      \* lax: any port text passes (used to tell "only the 
       hs == at + 1
       c2 == Find(s, Colon, hs)
       host == IF c2 = 0 THEN Dec(SubSeq(s, hs, Len(s))) ELSE Dec(SubSeq(s, hs, c2 - 1))
-      port == IF c2 = 0 \/ lax THEN Ok(0) ELSE Port(SubSeq(s, c2 + 1, Len(s)))
+      port == IF c2 = 0 THEN Ok(0) ELSE Port(SubSeq(s, c2 + 1, Len(s)), lax)
   IN IF user.ok /\ pw.ok /\ host.ok /\ port.ok THEN Ok([user |-> user.v, password |-> pw.v, host |-> host.v, port |-> port.v]) ELSE Fail
 ParseHost(s) == ParseHostG(s, FALSE)
 RECURSIVE KVs(_, _, _)
